@@ -94,5 +94,6 @@ func (cm *Committer) commitInner(block, committedBlock *hotstuff.Block) error {
 	cm.eventLoop.AddEvent(clientpb.ExecuteEvent{Batch: batch})
 	cm.eventLoop.AddEvent(hotstuff.ConsensusLatencyEvent{Latency: time.Since(block.Timestamp())})
 	cm.viewStates.UpdateCommittedBlock(block)
+	cm.blockchain.MarkCommitted(block)
 	return nil
 }
